@@ -128,6 +128,24 @@ pub fn gen_decode_history(seed: u64, name: &str, idx: u64) -> DecodeHistory {
     let h = random_decoder_matrix(&mut g, rows, cols);
     let ncalls = 2 + g.below(19) as usize;
     let mut calls: Vec<DecodeCall> = Vec::new();
+    // now and then a streak: many calls in a row that are neither codewords nor quick to
+    // converge, then clean codewords (a decoder that adapts to what it has seen lately — seeded
+    // change C10-r5-2 stops checking the input syndrome after eight misses — shows only then)
+    if g.chance(1, 6) {
+        let sign = |b: u8| if b == 1 { -1.0 } else { 1.0 };
+        for _ in 0..6 + g.below(9) {
+            let c = random_codeword(&mut g, &h);
+            let mut v: Vec<f64> = (0..h.c).map(|i| sign(c[i]) * 0.7 + gauss(&mut g) * 2.0).collect();
+            let p = g.below(h.c as u64) as usize;
+            v[p] = -sign(c[p]) * 3.0;
+            calls.push(DecodeCall { llrs: v, limit: *g.pick(&[0usize, 0, 1, 1, 2]), family: "streak-of-misses" });
+        }
+        for _ in 0..1 + g.below(3) {
+            let c = random_codeword(&mut g, &h);
+            let a = *g.pick(&[1.3863, 4.0, 1e30]);
+            calls.push(DecodeCall { llrs: (0..h.c).map(|i| sign(c[i]) * a).collect(), limit: *g.pick(&[0usize, 1, 5]), family: "clean-codeword-after-streak" });
+        }
+    }
     for _ in 0..ncalls {
         // now and then the very same vector again (a retry with another limit, or a repeated
         // frame): a decoder that recognises "the frame I already hold state for" must still
